@@ -193,9 +193,20 @@ def dump_model(m, case):
                 if all(type(x) is int for x in key):
                     items.append([key, sids[id(it._impl)]])
         st = static_of(sp)
-        top = [k for k in st.refs if k[0] != "_"] + list(st.cells)
+        # module-level names the exporter hands to FormulaTransformer for the class of the static space: references,
+        # child spaces, parameters of the space and of the enclosing spaces (builtin_child, repaired in /repo), cells
+        names = list(st.refs) + list(st.spaces)
+        anc = st
+        while hasattr(anc, "parameters"):
+            names += list(anc.parameters or ())
+            anc = anc.parent
+        xtop = [k for k in dict.fromkeys(names) if k[0] != "_"] + list(st.cells)
+        # Run.v model_okb wants s_top within the namespace: the parameters are attributes of the ItemSpace instances only,
+        # not of the static space the class also serves (there a formula reading them fails in the model and in the package)
+        have = {k for k, _ in ns}
+        top = [k for k in xtop if k in have]
         cellnames = sorted(set(list(st.cells) + [k for k, v in st.refs.items() if isinstance(v, Cells)]))
-        out.append({"ns": ns, "cells": cells, "items": items, "top": top, "cellnames": cellnames, "repr": repr(sp)})
+        out.append({"ns": ns, "cells": cells, "items": items, "top": top, "xtop": xtop, "absent": [k for k in xtop if k not in have], "cellnames": cellnames, "repr": repr(sp)})
     qsid = []
     for q in case["queries"]:
         try:
